@@ -528,7 +528,33 @@ def relocation_layout(rec, F):
                     newcaps.append(sem.desc_operand(fn, t2["args"][-1]))
             same = any(moved == nc for nc in newcaps)
             from_old = moved[0] == "arg" or "'cap'" in str(moved) or "read_cap" in str(moved)
-            ok = from_old and not same
+            # a capacity handed in as a parameter: follow it through the callers until it is read off the block
+            chain_bad = None
+            if moved[0] == "arg":
+                work = [(fn, moved[1], 0)]
+                seen_ = set()
+                while work:
+                    g, k, depth = work.pop()
+                    if (g.path, k) in seen_ or depth > 4:
+                        continue
+                    seen_.add((g.path, k))
+                    for c, cbi in F.callers.get(g.path, []):
+                        if "::test" in c.path:
+                            continue
+                        ct = c.blocks[cbi]["t"]
+                        if k - 1 >= len(ct["args"]):
+                            continue
+                        dd = sem.desc_operand(c, ct["args"][k - 1])
+                        if dd[0] == "arg":
+                            work.append((c, dd[1], depth + 1))
+                        elif not (("'cap'" in str(dd) or "read_cap" in str(dd) or "'capacity'" in str(dd) or re.match(r"\('field', \('call', 'state'", str(dd))) and "'bin'" not in str(dd)):
+                            chain_bad = (c, ct, dd)
+            ok = from_old and not same and chain_bad is None
+            if chain_bad is not None:
+                c_, ct_, dd_ = chain_bad
+                rec.inst(R, "%s: capacity passed down to mark_moved" % c_.name, ok=False, loc=loc_of(ct_["sp"]))
+                rec.finding(R, "F6.moved/%s/passes-%s" % (c_.name, re.sub(r"[^A-Za-z0-9]+", "-", str(dd_))[:40]), "%s passes `%s` as the capacity that %s records in the abandoned block (mark_moved): that is not the capacity the block was allocated with, so ObjectHandle::size over-counts it and Drop releases it with a Layout it was not allocated with" % (c_.name, str(dd_)[:80], fn.name), loc=loc_of(ct_["sp"]), fn=c_.path)
+                continue
             rec.inst(R, "%s: mark_moved(old capacity)" % fn.name, ok=ok, loc=loc_of(t["sp"]), note="moved=%s new=%s" % (str(moved)[:60], [str(x)[:60] for x in newcaps]))
             if not ok:
                 rec.finding(R, "F6.moved/%s" % fn.name, "%s records in the abandoned block the capacity of the NEW allocation (or a value not derived from the old capacity): the stub is later sized and deallocated with a layout it was not allocated with" % fn.name, loc=loc_of(t["sp"]), fn=fn.path)
